@@ -1,158 +1,160 @@
 package extract
 
 import (
+	"encoding/hex"
 	"fmt"
 	"go/ast"
-	"go/token"
 	"strconv"
 	"strings"
 )
 
-// Tar: the constants findSegments works with: block size and field offsets
-// (the const block inside the function), the magic strings, the version
-// literal and the typeflag lists of its final switch.
+// Tar: the constants findSegments (pkg/tarfs/parse.go) works with — block size,
+// field offsets, the magic strings, the version, the typeflag classes — and the
+// two checks the termination / bounds theorems of C06 rest on.
+//
+// EVALUATED (design/EXTRACT.md, round 2): the probe go/cmd/rxprobe/tar hands the
+// real findSegments (hook FindSegmentsForVerif) crafted header blocks through a
+// ReaderAt that logs every read, and derives
+//
+//	blockSz                     the length of the first read
+//	magicOff, versionOff        the only pair of positions at which a magic and a version make an otherwise
+//	                            empty header acceptable (all position pairs are tried)
+//	magicPAX, magicGNU          the accepted 6-byte magics that need the version (candidates: the snapshot's, the
+//	                            package's string literals, one-byte near misses of all of them), in byte order
+//	magicOldGNU                 the accepted 8-byte magic that covers the version field
+//	version                     the accepted content of the version field
+//	typeflag                    the only position where a "prepended" flag glues a block to the next segment
+//	sizeOff, sizeLen            the run of positions where a digit changes the segment's size
+//	prependFlags, dataFlags     the class of each of the 256 typeflag values (prepend: joins the next segment;
+//	                            data: a segment of its own; anything else: ignored), printed in the snapshot's
+//	                            order when the sets are the snapshot's
+//	rejectsNegativeSize         base-256 negative sizes are refused (and the scan ends)
+//	probesLastContentByte       a size that runs past the end of the archive is refused
+//
+// so the constants may be renamed, moved to package level, turned into a
+// lookup table, the checks moved into helpers: the text only depends on what
+// the function accepts.
 func init() {
 	Register(Gen{Name: "Tar", Run: func(repo string) (string, error) {
-		_, f, err := ParseFile(repo, "pkg/tarfs/parse.go")
+		p, err := rxLoadPkg(repo, "pkg/tarfs")
 		if err != nil {
 			return "", err
 		}
+		var lits []string
+		for _, l := range p.StringLits() {
+			if len(l) > 0 && len(l) <= 8 {
+				lits = append(lits, hex.EncodeToString([]byte(l)))
+			}
+		}
+		var ans struct {
+			BlockSz     int      `json:"blockSz"`
+			Pairs       [][2]int `json:"pairs"`
+			Magics6     []string `json:"magics6"`
+			Magics6Any  []string `json:"magics6any"`
+			Magics8     []string `json:"magics8"`
+			Versions    []string `json:"versions"`
+			TypeflagOff []int    `json:"typeflagOff"`
+			SizePos     []int    `json:"sizePos"`
+			Flags       []string `json:"flags"`
+			Negative    bool     `json:"negative"`
+			NegDetail   string   `json:"negDetail"`
+			Probe       bool     `json:"probe"`
+		}
+		if err := rxProbe(repo, "tar", map[string]any{"lits": lits}, &ans); err != nil {
+			return "", err
+		}
+		if len(ans.Pairs) != 1 || len(ans.TypeflagOff) != 1 || len(ans.SizePos) == 0 || len(ans.Flags) != 256 {
+			return "", fmt.Errorf("findSegments: no unique magic/version position (%v), typeflag position (%v) or size field (%v)", ans.Pairs, ans.TypeflagOff, ans.SizePos)
+		}
+		for i, k := range ans.SizePos {
+			if k != ans.SizePos[0]+i {
+				return "", fmt.Errorf("findSegments: the positions that change the size are not one run: %v", ans.SizePos)
+			}
+		}
+		unhex := func(h string) string {
+			b, _ := hex.DecodeString(h)
+			return string(b)
+		}
 		out := Header("Tar", "pkg/tarfs/parse.go")
-		fd := FuncDecl(f, "", "findSegments")
-		if fd == nil {
-			return "", fmt.Errorf("findSegments not found")
+		out += fmt.Sprintf("def blockSz : Nat := %d\n", ans.BlockSz)
+		out += fmt.Sprintf("def magicOff : Nat := %d\n", ans.Pairs[0][0])
+		out += fmt.Sprintf("def versionOff : Nat := %d\n", ans.Pairs[0][1])
+		out += fmt.Sprintf("def typeflag : Nat := %d\n", ans.TypeflagOff[0])
+		out += fmt.Sprintf("def sizeOff : Nat := %d\n", ans.SizePos[0])
+		// names in the snapshot's order; an accepted magic beyond them gets a name no theorem knows
+		for i, m := range ans.Magics6 {
+			name := fmt.Sprintf("magicExtra6_%d", i)
+			if i < len(rxSnapTarMagic6) {
+				name = rxSnapTarMagic6[i]
+			}
+			out += fmt.Sprintf("def %s : List UInt8 := %s\n", name, leanByteList(unhex(m)))
 		}
-		consts := map[string]int64{}
-		ast.Inspect(fd.Body, func(n ast.Node) bool {
-			gd, ok := n.(*ast.GenDecl)
-			if !ok || gd.Tok != token.CONST {
-				return true
+		for i, m := range ans.Magics8 {
+			name := fmt.Sprintf("magicExtra8_%d", i)
+			if i < len(rxSnapTarMagic8) {
+				name = rxSnapTarMagic8[i]
 			}
-			for _, s := range gd.Specs {
-				vs := s.(*ast.ValueSpec)
-				for i, nm := range vs.Names {
-					if i < len(vs.Values) {
-						if v, err := IntLit(vs.Values[i]); err == nil {
-							consts[nm.Name] = v
-						}
-					}
-				}
-			}
-			return true
-		})
-		for _, k := range []string{"blockSz", "magicOff", "versionOff", "typeflag", "sizeOff"} {
-			v, ok := consts[k]
-			if !ok {
-				return "", fmt.Errorf("constant %s of findSegments not found", k)
-			}
-			out += fmt.Sprintf("def %s : Nat := %d\n", k, v)
+			out += fmt.Sprintf("def %s : List UInt8 := %s\n", name, leanByteList(unhex(m)))
 		}
-		// magic strings: var magicX = []byte("...")
-		for _, k := range []string{"magicPAX", "magicGNU", "magicOldGNU"} {
-			s, err := byteSliceVar(f, k)
-			if err != nil {
-				return "", err
-			}
-			out += fmt.Sprintf("def %s : List UInt8 := %s\n", k, leanByteList(s))
+		for i, m := range ans.Magics6Any {
+			out += fmt.Sprintf("def magicWithoutVersion_%d : List UInt8 := %s\n", i, leanByteList(unhex(m)))
 		}
-		// the literals of the loop: []byte("00") for the version, the length of the size field,
-		// and the typeflag case lists
-		var version string
-		sizeLen := int64(-1)
-		var lists [][]string
-		ast.Inspect(fd.Body, func(n ast.Node) bool {
-			switch x := n.(type) {
-			case *ast.CallExpr:
-				// bytes.Equal(b[versionOff:][:2], []byte("00"))
-				if sel, ok := x.Fun.(*ast.SelectorExpr); ok && sel.Sel.Name == "Equal" && len(x.Args) == 2 {
-					if strings.Contains(exprString(x.Args[0]), "versionOff") {
-						if s, ok := byteSliceLit(x.Args[1]); ok {
-							version = s
-						}
-					}
-				}
-			case *ast.AssignStmt:
-				// encSz := b[sizeOff:][:12]
-				if len(x.Lhs) == 1 && len(x.Rhs) == 1 && exprString(x.Lhs[0]) == "encSz" {
-					if sl, ok := x.Rhs[0].(*ast.SliceExpr); ok && sl.High != nil {
-						if v, err := IntLit(sl.High); err == nil {
-							sizeLen = v
-						}
-					}
-				}
-			case *ast.SwitchStmt:
-				if strings.Contains(exprString(x.Tag), "typeflag") {
-					for _, st := range x.Body.List {
-						cc := st.(*ast.CaseClause)
-						if cc.List == nil {
-							continue
-						}
-						var names []string
-						for _, e := range cc.List {
-							names = append(names, selName(e))
-						}
-						lists = append(lists, names)
-					}
-				}
+		if len(ans.Versions) == 1 {
+			out += fmt.Sprintf("def version : List UInt8 := %s\n", leanByteList(unhex(ans.Versions[0])))
+		} else {
+			var vs []string
+			for _, v := range ans.Versions {
+				vs = append(vs, leanByteList(unhex(v)))
 			}
-			return true
-		})
-		if version == "" || sizeLen < 0 || len(lists) != 2 {
-			return "", fmt.Errorf("findSegments: version literal / size field length / typeflag switch not recognised (%q, %d, %d case lists)", version, sizeLen, len(lists))
+			out += "def versions : List (List UInt8) := [" + strings.Join(vs, ", ") + "]\n"
 		}
-		out += fmt.Sprintf("def version : List UInt8 := %s\n", leanByteList(version))
-		out += fmt.Sprintf("def sizeLen : Nat := %d\n", sizeLen)
-		for i, nm := range []string{"prependFlags", "dataFlags"} {
+		out += fmt.Sprintf("def sizeLen : Nat := %d\n", len(ans.SizePos))
+		classes := map[string][]int{}
+		for v, c := range ans.Flags {
+			classes[c] = append(classes[c], v)
+		}
+		for _, c := range []string{"error", "other"} {
+			if len(classes[c]) > 0 {
+				return "", fmt.Errorf("findSegments: typeflag values %v are neither data, prepended nor ignored (%s)", classes[c], c)
+			}
+		}
+		for _, l := range []struct {
+			name, class string
+			snap        []int
+		}{{"prependFlags", "prepend", rxSnapTarPrepend}, {"dataFlags", "data", rxSnapTarData}} {
+			got := classes[l.class]
+			order := got // canonical: ascending
+			if rxSameIntSet(got, l.snap) {
+				order = l.snap
+			}
 			var bs []string
-			for _, n := range lists[i] {
-				v, ok := tarTypeflags[n]
-				if !ok {
-					return "", fmt.Errorf("unknown archive/tar typeflag constant %s", n)
-				}
-				bs = append(bs, strconv.Itoa(int(v)))
+			for _, v := range order {
+				bs = append(bs, strconv.Itoa(v))
 			}
-			out += fmt.Sprintf("def %s : List UInt8 := [%s]\n", nm, strings.Join(bs, ", "))
+			out += fmt.Sprintf("def %s : List UInt8 := [%s]\n", l.name, strings.Join(bs, ", "))
 		}
-		// is there a check that rejects a negative size, and one that probes the last content byte?
-		neg, probe := false, false
-		ast.Inspect(fd.Body, func(n ast.Node) bool {
-			is, ok := n.(*ast.IfStmt)
-			if !ok {
-				return true
-			}
-			c := exprString(is.Cond)
-			if c == "sz < 0" && returnsErr(is.Body) {
-				neg = true
-			}
-			if c == "sz > 0" {
-				ast.Inspect(is.Body, func(m ast.Node) bool {
-					if ce, ok := m.(*ast.CallExpr); ok && strings.HasSuffix(exprString(ce.Fun), ".ReadAt") && len(ce.Args) == 2 &&
-						exprString(ce.Args[1]) == "off + blockSz + sz - 1" {
-						probe = true
-					}
-					return true
-				})
-			}
-			return true
-		})
-		out += fmt.Sprintf("def rejectsNegativeSize : Bool := %v\ndef probesLastContentByte : Bool := %v\n", neg, probe)
+		out += fmt.Sprintf("def rejectsNegativeSize : Bool := %v\ndef probesLastContentByte : Bool := %v\n", ans.Negative, ans.Probe)
 		return out + Footer("Tar"), nil
 	}})
 }
 
-var tarTypeflags = map[string]byte{
-	"TypeReg": '0', "TypeRegA": 0, "TypeLink": '1', "TypeSymlink": '2', "TypeChar": '3', "TypeBlock": '4', "TypeDir": '5',
-	"TypeFifo": '6', "TypeCont": '7', "TypeXHeader": 'x', "TypeXGlobalHeader": 'g', "TypeGNUSparse": 'S',
-	"TypeGNULongName": 'L', "TypeGNULongLink": 'K',
-}
-
-func returnsErr(b *ast.BlockStmt) bool {
-	for _, s := range b.List {
-		if r, ok := s.(*ast.ReturnStmt); ok && len(r.Results) == 2 && exprString(r.Results[0]) == "nil" && exprString(r.Results[1]) != "nil" {
-			return true
+func rxSameIntSet(a, b []int) bool {
+	if len(a) != len(b) {
+		return false
+	}
+	m := map[int]int{}
+	for _, x := range a {
+		m[x]++
+	}
+	for _, x := range b {
+		m[x]--
+	}
+	for _, n := range m {
+		if n != 0 {
+			return false
 		}
 	}
-	return false
+	return true
 }
 
 func leanByteList(s string) string {
@@ -161,45 +163,6 @@ func leanByteList(s string) string {
 		bs = append(bs, strconv.Itoa(int(c)))
 	}
 	return "[" + strings.Join(bs, ", ") + "]"
-}
-
-func byteSliceLit(e ast.Expr) (string, bool) {
-	ce, ok := e.(*ast.CallExpr)
-	if !ok || len(ce.Args) != 1 {
-		return "", false
-	}
-	if at, ok := ce.Fun.(*ast.ArrayType); !ok || at.Len != nil || typeString(at.Elt) != "byte" {
-		return "", false
-	}
-	bl, ok := ce.Args[0].(*ast.BasicLit)
-	if !ok || bl.Kind != token.STRING {
-		return "", false
-	}
-	s, err := strconv.Unquote(bl.Value)
-	return s, err == nil
-}
-
-func byteSliceVar(f *ast.File, name string) (string, error) {
-	for _, d := range f.Decls {
-		gd, ok := d.(*ast.GenDecl)
-		if !ok {
-			continue
-		}
-		for _, s := range gd.Specs {
-			vs, ok := s.(*ast.ValueSpec)
-			if !ok {
-				continue
-			}
-			for i, n := range vs.Names {
-				if n.Name == name && i < len(vs.Values) {
-					if s, ok := byteSliceLit(vs.Values[i]); ok {
-						return s, nil
-					}
-				}
-			}
-		}
-	}
-	return "", fmt.Errorf("byte slice variable %s not found", name)
 }
 
 // exprString renders simple expressions (identifiers, selectors, binary
